@@ -5,7 +5,30 @@
 use actix_http::h1::{self, Message};
 use actix_http::{HttpMessage as _, Request, ServiceConfig};
 use bytes::BytesMut;
+use std::cell::RefCell;
+use std::mem::ManuallyDrop;
 use tokio_util::codec::Decoder;
+
+thread_local! {
+    static CFG: RefCell<Option<ManuallyDrop<(tokio::runtime::Runtime, tokio::task::LocalSet, ServiceConfig)>>> = const { RefCell::new(None) };
+}
+
+/// `ServiceConfig::default()` starts the date service with `spawn_local`, so it is built once per
+/// worker thread inside a `LocalSet` that is kept alive; codecs get clones of it (as the real
+/// service hands one shared config to every connection).
+pub fn service_config() -> ServiceConfig {
+    CFG.with(|c| {
+        let mut c = c.borrow_mut();
+        if c.is_none() {
+            let rt = tokio::runtime::Builder::new_current_thread().enable_time().start_paused(true).build().unwrap_or_else(|e| mc_core::machinery(format!("runtime: {e}")));
+            let local = tokio::task::LocalSet::new();
+            let cfg = local.block_on(&rt, async { ServiceConfig::default() });
+            // never dropped: a tokio LocalSet must not be dropped from a thread-local destructor
+            *c = Some(ManuallyDrop::new((rt, local, cfg)));
+        }
+        c.as_ref().map(|x| x.2.clone()).unwrap()
+    })
+}
 
 pub fn deliver(method: &str, lines: &[(&str, &[u8])]) -> Option<Request> {
     let mut buf = BytesMut::with_capacity(64 + lines.iter().map(|l| l.0.len() + l.1.len() + 4).sum::<usize>());
@@ -18,20 +41,41 @@ pub fn deliver(method: &str, lines: &[(&str, &[u8])]) -> Option<Request> {
         buf.extend_from_slice(b"\r\n");
     }
     buf.extend_from_slice(b"\r\n");
-    let mut codec = h1::Codec::new(ServiceConfig::default());
+    let mut codec = h1::Codec::new(service_config());
     match codec.decode(&mut buf) {
         Ok(Some(Message::Item(req))) => Some(req),
         _ => None,
     }
 }
 
-/// The same head as an `HttpRequest` (for the APIs that live on it: cookies, connection info).
-pub fn to_http_request(req: &Request) -> actix_web::HttpRequest {
-    let mut tr = actix_web::test::TestRequest::default().method(req.method().clone()).version(req.version());
-    // HeaderMap iteration order over names is per-process random; values of one name stay ordered,
-    // which is all the parsers depend on
-    for (n, v) in req.headers().iter() {
-        tr = tr.append_header((n.clone(), v.clone()));
+thread_local! {
+    static SR: RefCell<Option<ManuallyDrop<actix_web::dev::ServiceRequest>>> = const { RefCell::new(None) };
+}
+
+/// The same head as an `HttpRequest` (for the APIs that live on it: cookies, connection info,
+/// NamedFile). One request object per worker thread is reused, the way a worker's request pool
+/// reuses them: `TestRequest::to_http_request()` per case would leak every request (a request
+/// dropped by the test helper parks itself in the pool of the app state it alone keeps alive).
+pub fn with_http_request<R>(req: &Request, f: impl FnOnce(&actix_web::HttpRequest) -> R) -> R {
+    let mut sr = SR
+        .with(|c| c.borrow_mut().take())
+        .map(ManuallyDrop::into_inner)
+        .unwrap_or_else(|| actix_web::test::TestRequest::default().to_srv_request());
+    {
+        let head = sr.head_mut();
+        head.method = req.method().clone();
+        head.version = req.version();
+        head.uri = req.uri().clone();
+        head.headers.clear();
+        // HeaderMap iteration order over names is per-process random; values of one name stay
+        // ordered, which is all the parsers depend on
+        for (n, v) in req.headers().iter() {
+            head.headers.append(n.clone(), v.clone());
+        }
     }
-    tr.to_http_request()
+    // per-request caches (ConnectionInfo, parsed cookies) live in the extensions
+    sr.request().extensions_mut().clear();
+    let r = f(sr.request());
+    SR.with(|c| *c.borrow_mut() = Some(ManuallyDrop::new(sr)));
+    r
 }
